@@ -515,6 +515,42 @@ func runC09(args []string) int {
 			coqCases = append(coqCases, c)
 		}
 	}
+	// GKR metadata: a system delegating gates to the GKR sub-protocol solves only through what GkrInfo records
+	for _, t := range []Target{{"bn254", ecc.BN254.ScalarField(), true}, {"bn254", ecc.BN254.ScalarField(), false}} {
+		c19Register()
+		topo := &gkrTopo{NIn: 2, Ops: []gkrOp{{"mul2", []int{0, 1}}, {"add2", []int{2, 0}}, {c19Gate, []int{3, 1}}}}
+		const n = 4
+		ccs, cerr := compileTarget(t, newGkrCircuit(topo, n))
+		if cerr != "" {
+			rep.Fail("harness:gkr-compile", cerr, t.String())
+			continue
+		}
+		var wits []witness.Witness
+		for _, wrong := range []bool{false, true} {
+			in := make([][]*big.Int, n)
+			for k := range in {
+				in[k] = []*big.Int{big.NewInt(int64(3 + k)), big.NewInt(int64(11 + 2*k))}
+			}
+			vals := topo.eval(in)
+			a := newGkrCircuit(topo, n)
+			for i := 0; i < topo.NIn; i++ {
+				for k := 0; k < n; k++ {
+					a.In[i][k] = in[k][i]
+				}
+			}
+			for si, wv := range topo.sinks() {
+				for k := 0; k < n; k++ {
+					a.Out[si][k] = vals[k][wv]
+				}
+			}
+			if wrong {
+				a.Out[0][1] = 12345
+			}
+			w, _ := frontend.NewWitness(a, t.Field)
+			wits = append(wits, w)
+		}
+		sysRoundTrip(rep, t, ccs, "gkr: mul / add / custom gate over 4 instances (GkrInfo)", wits)
+	}
 	// size thresholds: more than 2^17 inputs / constraints / calldata words, a lookup table of 2^16 entries (decoder limits)
 	for _, t := range []Target{{"bn254", ecc.BN254.ScalarField(), true}, {"bn254", ecc.BN254.ScalarField(), false}} {
 		nIn := 1<<17 + 5
